@@ -16,7 +16,7 @@ def keyHex (k : List Int) : String := hex (k.map fun c => (c % 256).toNat)
 def b01 (b : Bool) : String := if b then "1" else "0"
 
 def summary (t : T) : String :=
-  let hc := [97, 98, 99, 100].map fun (c : Int) =>
+  let hc := [97, 98, 99, 100, 101, 122, 1, 127, -128, -87, -61, -23, -1].map fun (c : Int) =>
     match t.hasChar c with
     | some b => b01 b
     | none => "T"
